@@ -357,7 +357,12 @@ class Sym:
         if self.is_real():
             if self.re.d is T.ONE:
                 return Sym(Q(T.absval(self.re.n)))
-            return Sym(Q(T.absval(self.re.n), T.absval(self.re.d)))
+            return Sym(Q(T.absval(self.re.n), self.re.d if T.is_nonneg(self.re.d) else T.absval(self.re.d)))
+        if self.re.d is self.im.d and self.re.d is not T.ONE:
+            # |(a + ib)/d| = sqrt(a^2 + b^2)/|d|
+            d = self.re.d
+            num = T.sqrt(T.add(T.mul(self.re.n, self.re.n), T.mul(self.im.n, self.im.n)))
+            return Sym(Q(num, d if T.is_nonneg(d) else T.absval(d)))
         return (self.real * self.real + self.imag * self.imag).sqrt()
 
     # ---- complex structure
@@ -460,9 +465,14 @@ class Sym:
 
     def arctan2(self, x):
         x = tosym(x)
+        if self.is_real() and x.is_real() and self.re.d is x.re.d and self.re.d is not T.ONE and T.is_nonneg(self.re.d):
+            # atan2(a/d, b/d) = atan2(a, b) for d > 0
+            return Sym(Q(T.atan2(self.re.n, x.re.n)))
         return Sym(Q(T.atan2(self.rterm(), x.rterm())))
 
     def arctan(self):
+        if self.is_real() and self.re.d is not T.ONE and T.is_nonneg(self.re.d):
+            return Sym(Q(T.atan_quot(self.re.n, self.re.d)))
         return Sym(Q(T.unary_atom("atan", self.rterm())))
 
     def arcsinh(self):
